@@ -388,12 +388,12 @@ class SimpleProcessTensor(BaseProcessTensor):
         last_cap = tn.Node(caps[-1])
 
         for step in reversed(range(length)):
-            trace_square = tn.Node(self._trace_square)
             trace_in = tn.Node(self._trace_in)
             trace_out = tn.Node(self._trace_out)
             ten = tn.Node(self._mpo_tensors[step])
 
             if len(ten.shape) == 3:
+                trace_square = tn.Node(self._trace_in * self._trace_out)
                 ten[1] ^ last_cap[0]
                 ten[2] ^ trace_square[0]
                 new_cap = ten @ last_cap @ trace_square
@@ -791,11 +791,17 @@ class FileProcessTensor(BaseProcessTensor):
         for step in reversed(range(length)):
             trace_in = tn.Node(self._trace_in)
             trace_out = tn.Node(self._trace_out)
-            ten = tn.Node(self.get_mpo_tensor(step))
-            ten[1] ^ last_cap[0]
-            ten[2] ^ trace_in[0]
-            ten[3] ^ trace_out[0]
-            new_cap = ten @ last_cap @ trace_in @ trace_out
+            ten = tn.Node(self.get_mpo_tensor(step, transformed=False))
+            if len(ten.shape) == 3:
+                trace_square = tn.Node(self._trace_in * self._trace_out)
+                ten[1] ^ last_cap[0]
+                ten[2] ^ trace_square[0]
+                new_cap = ten @ last_cap @ trace_square
+            else:
+                ten[1] ^ last_cap[0]
+                ten[2] ^ trace_in[0]
+                ten[3] ^ trace_out[0]
+                new_cap = ten @ last_cap @ trace_in @ trace_out
             self.set_cap_tensor(step, new_cap.get_tensor())
             last_cap = new_cap
 
